@@ -181,6 +181,39 @@ static void pump(coap_tick_t budget) {
   }
 }
 
+/* observable resource with a body of BIG_LEN bytes whose first byte is the value */
+static void h_obsbig(coap_resource_t *r, coap_session_t *s, const coap_pdu_t *req,
+                     const coap_string_t *q, coap_pdu_t *resp) {
+  static uint8_t body[BIG_LEN];
+  W.n_get++;
+  memcpy(body, big_body, BIG_LEN);
+  body[0] = (uint8_t)W.obs_value;
+  coap_pdu_set_code(resp, COAP_RESPONSE_CODE_CONTENT);
+  if (!coap_add_data_large_response(r, s, req, resp, q, COAP_MEDIATYPE_APPLICATION_OCTET_STREAM,
+                                    -1, 0, BIG_LEN, body, NULL, NULL))
+    coap_pdu_set_code(resp, COAP_RESPONSE_CODE_INTERNAL_ERROR);
+}
+
+/* POST: large request body in, large response body (the request body reversed) out */
+static void h_echo(coap_resource_t *r, coap_session_t *s, const coap_pdu_t *req,
+                   const coap_string_t *q, coap_pdu_t *resp) {
+  static uint8_t out[UP_LEN];
+  size_t len, off, tot;
+  const uint8_t *data;
+  W.n_put++;
+  if (!coap_get_data_large(req, &len, &data, &off, &tot) || len > UP_LEN) {
+    coap_pdu_set_code(resp, COAP_RESPONSE_CODE_BAD_REQUEST);
+    return;
+  }
+  W.put_len = len;
+  W.put_hash = fnv(data, len);
+  for (size_t i = 0; i < len; i++) out[i] = data[len - 1 - i];
+  coap_pdu_set_code(resp, COAP_RESPONSE_CODE_CONTENT);
+  if (!coap_add_data_large_response(r, s, req, resp, q, COAP_MEDIATYPE_APPLICATION_OCTET_STREAM,
+                                    -1, 0, len, out, NULL, NULL))
+    coap_pdu_set_code(resp, COAP_RESPONSE_CODE_INTERNAL_ERROR);
+}
+
 static void h_loop(coap_resource_t *r, coap_session_t *s, const coap_pdu_t *req,
                    const coap_string_t *q, coap_pdu_t *resp) {
   (void)r; (void)s; (void)req; (void)q;
@@ -568,6 +601,90 @@ static void one_request(const char *tag, int type, int code, const char *path) {
   R("%s_resp=%d code=%d len=%zu", tag, W.n_resp - before, W.last_code, W.last_len);
 }
 
+static void sc_obs_big(void) {
+  /* observe on a resource whose representation needs Block2: registration, two notifications
+   * (each a complete block-wise body), cancel */
+  prologue(COAP_BLOCK_USE_LIBCOAP | COAP_BLOCK_SINGLE_BODY);
+  coap_resource_t *r = mkres("obig", h_obsbig, NULL);
+  if (r) {
+    coap_resource_set_get_observable(r, 1);
+    coap_add_resource(W.srv, r);
+  }
+  uint8_t tok[8];
+  size_t tl = 0;
+  coap_pdu_t *p = mk_req(W.cs, COAP_MESSAGE_CON, COAP_REQUEST_CODE_GET, "obig", tok, &tl);
+  if (p && !coap_insert_option(p, COAP_OPTION_OBSERVE, 0, NULL)) {
+    coap_delete_pdu(p);
+    p = NULL;
+  }
+  R("pdu=%d", p != NULL);
+  if (p) R("send=%d", send_tracked(W.cs, p) != COAP_INVALID_MID);
+  pump(200000);
+  R("reg resp=%d code=%d len=%zu", W.n_resp, W.last_code, W.last_len);
+  for (int i = 1; i <= 2; i++) {
+    int before = W.n_resp;
+    W.obs_value = i;
+    W.last_len = 0;
+    int n = r ? coap_resource_notify_observers(r, NULL) : 0;
+    pump(200000);
+    R("notify%d=%d got=%d len=%zu", i, n, W.n_resp - before, W.last_len);
+    if (W.n_resp > before && W.last_code == COAP_RESPONSE_CODE_CONTENT) {
+      if (W.last_len < BIG_LEN) R("bad=partial-body-delivered");
+      else {
+        uint8_t exp[BIG_LEN];
+        memcpy(exp, big_body, BIG_LEN);
+        exp[0] = (uint8_t)i;
+        if (W.last_len != BIG_LEN || W.last_hash != fnv(exp, BIG_LEN)) R("bad=corrupt-or-stale-body");
+      }
+    }
+  }
+  coap_binary_t t;
+  t.length = tl;
+  t.s = tok;
+  int plain0 = W.n_plain;
+  W.last_plain_code = 0;
+  int c = coap_cancel_observe(W.cs, &t, COAP_MESSAGE_CON);
+  pump(200000);
+  R("cancel=%d got=%d code=%d", c, W.n_plain - plain0, W.last_plain_code);
+  finish_with_canary();
+  world_down();
+}
+
+static void sc_echo(void) {
+  /* POST with a Block1 request body and a Block2 response body */
+  prologue(COAP_BLOCK_USE_LIBCOAP | COAP_BLOCK_SINGLE_BODY);
+  coap_resource_t *r = coap_resource_init(coap_make_str_const("echo"), 0);
+  if (r) {
+    coap_register_request_handler(r, COAP_REQUEST_POST, h_echo);
+    coap_add_resource(W.srv, r);
+  }
+  coap_pdu_t *p = mk_req(W.cs, COAP_MESSAGE_CON, COAP_REQUEST_CODE_POST, "echo", NULL, NULL);
+  R("pdu=%d", p != NULL);
+  if (p) {
+    int a = coap_add_data_large_request(W.cs, p, UP_LEN, up_body, NULL, NULL);
+    R("large=%d", a);
+    if (!a) {
+      coap_delete_pdu(p);
+      p = NULL;
+    }
+  }
+  if (p) R("send=%d", send_tracked(W.cs, p) != COAP_INVALID_MID);
+  pump(300000);
+  R("resp=%d code=%d len=%zu nack=%d put=%d", W.n_resp, W.last_code, W.last_len, W.n_nack, W.n_put);
+  if (W.n_put && (W.put_len != UP_LEN || W.put_hash != fnv(up_body, UP_LEN)))
+    R("bad=wrong-body-at-server");
+  if (W.n_resp && W.last_code == COAP_RESPONSE_CODE_CONTENT) {
+    uint8_t exp[UP_LEN];
+    for (size_t i = 0; i < UP_LEN; i++) exp[i] = up_body[UP_LEN - 1 - i];
+    if (W.last_len < UP_LEN) R("bad=partial-body-delivered");
+    else if (W.last_len != UP_LEN || W.last_hash != fnv(exp, UP_LEN)) R("bad=corrupt-body");
+  }
+  if (W.n_resp > 1) R("bad=response-delivered-%d-times", W.n_resp);
+  if (W.n_put > 1) R("bad=request-delivered-%d-times", W.n_put);
+  finish_with_canary();
+  world_down();
+}
+
 static void sc_async(void) {
   /* separate response through coap_register_async (empty ACK first, CON response later) */
   prologue(COAP_BLOCK_USE_LIBCOAP | COAP_BLOCK_SINGLE_BODY);
@@ -947,7 +1064,7 @@ static const scen_t scens[] = {
   {"block1", sc_block1},     {"observe", sc_observe},   {"uri", sc_uri},
   {"pdu", sc_pdu},           {"teardown_busy", sc_teardown_busy}, {"resp508", sc_resp508},
   {"async", sc_async},       {"unknown", sc_unknown},   {"ping", sc_ping},
-  {"oscore", sc_oscore},
+  {"oscore", sc_oscore},     {"obs_big", sc_obs_big},   {"echo", sc_echo},
   {NULL, NULL}};
 
 /* ------------------------------------------------------------------ child / parent */
